@@ -207,8 +207,14 @@ def oracle(run: runner.Run, oc: Outcome) -> None:
                 allspecs[f"{h['id']}/{sub['id']}"] = dict(sub, kind=h['kind'], opts=sub.get('opts', {}))
         def _short_twin(hid: str) -> bool:
             # another id of this operator that the key convention writes the same way, both too short to get a hash
-            flat = hid.translate(_FLAT)
-            return len(hid) <= 63 and any(x != hid and len(x) <= 63 and x.translate(_FLAT) == flat for x in allspecs)
+            # (a sub-handler shares the fate of a parent that is such a twin)
+            for cut in [len(hid)] + [i for i, ch_ in enumerate(hid) if ch_ == '/']:
+                anc = hid[:cut]
+                flat = anc.translate(_FLAT)
+                if anc in allspecs and len(anc) <= 63 and any(x != anc and len(x) <= 63 and x.translate(_FLAT) == flat
+                                                              for x in allspecs):
+                    return True
+            return False
 
         # 2. round trip: per cycle (delimited by the writes of the last-handled state) retry numbers count up and
         #    nothing runs after its final outcome
